@@ -36,6 +36,7 @@ LEAVES_FULL = (X, Y, A0, C(2), C(-1), C(3))          # depth-2 family, thorough 
 LEAVES_REDUCED = (X, Y, C(2), C(-1))                 # children of the quick three-level family
 LEAVES_PAIRS = (X, Y, C(2))                          # both-children-composite family (thorough)
 SIBLINGS = (X, Y, C(2))                              # the other slot(s) of a three-level parent
+ARITY_ARGS = (X, Y, C(2))                            # argument pool of the "arity" family
 SIBLINGS3 = ((X, Y), (Y, C(3)))                      # the two other slots of a 3-ary parent
 
 SMOOTH_FUNCS = ("sin", "cos", "tan", "log", "exp", "sinh", "cosh", "tanh", "expm1")
@@ -46,6 +47,7 @@ MAX_POINTS = 64                                      # per expression (<= 3 vari
 SETTINGS = ("none", "continuous", "discontinuous")
 LEVEL = {"none": 0, "continuous": 1, "discontinuous": 2}
 HISTORY_LEN = {"quick": 2, "thorough": 3}
+MAX_ARITY = 3                                        # "arity" family: table names x 0..3 arguments
 # constants whose CPython hashes collide (hash(-1) == hash(-2), hash(0) == hash(2**61-1)): two
 # sibling nodes differing only in such a pair have equal hashes without being equal; and constants
 # that are == with equal hashes but different types (legitimately shared memo entries)
@@ -183,6 +185,9 @@ def required_levels(s, dvars):
             lv, nm = 2, "If"
         elif c[0] == "Call":
             cls = call_class(c)
+            if cls == "log2":
+                anyl = 3            # may be refused under every setting, never has to be
+                continue
             lv = {"smooth": 0, "fabs": 1, "sign": 2, "unknown": 3}[cls]
             nm = cls
         if not lv:
@@ -490,7 +495,8 @@ class C10(Check):
             "2, -1, 3; (nest3) every (parent shape, position, depth-2 child) with the other slots "
             "from a sibling set (quick: children over x, y, 2, -1; thorough: over all six leaves); "
             "(pairs3, thorough) binary parents with both children composite; dedicated families "
-            "for variable exponents on an integer grid, refusal (arity variants, unknown names, "
+            "for variable exponents on an integer grid, every table name with every arity 0..3 "
+            "(arguments over x, y, 2; bare and below 5 parents), refusal (unknown names, "
             "non-smooth functions below every parent position), shared CSEs, pairs of sibling "
             "CSEs whose children differ only in hash-colliding constants (-1/-2, 0/2**61-1, "
             "-1/-2**61) or in ==-but-differently-typed constants (1/1.0/True, ...) in 7 contexts "
@@ -520,6 +526,9 @@ class C10(Check):
         "variable may either be refused or be differentiated (to the correct value); when its "
         "argument mentions the variable refusal (any exception) is demanded",
         "0**0 = 1 in the returned expression (Python's convention)",
+        "a table name called with an arity the table does not know is an unknown function and "
+        "must be refused; the one exception is math.log(u, b), which Python's math defines: it "
+        "may be refused or differentiated to d(ln u / ln b)",
     ]
     chunk = 24
 
@@ -533,6 +542,7 @@ class C10(Check):
             ("refusal", self.gen_refusal),
             ("cse-shared", self.gen_cse_shared),
             ("cse-twins", self.gen_cse_twins),
+            ("arity", self.gen_arity),
             ("cse-histories", lambda: self.gen_histories(tier)),
         ]
         if tier == "thorough":
@@ -627,6 +637,27 @@ class C10(Check):
                 yield ("e", CSE(Sum(w, Y)))                 # nested wrappers
                 yield ("e", CSE(Prod(w, CSE(Sum(w, X)))))
                 yield ("e", If(Cmp(X, "<", Y), w, Prod(w, w)))
+
+    def gen_arity(self):
+        """Every name of the derivative table called with every arity 0..3 other than (and
+        including) the one the table knows, arguments over x, y, 2, bare and below five parents:
+        a table entry must only fire for its own arity."""
+        args_by_arity = {
+            0: [()],
+            1: [(X,), (Y,), (C(2),)],
+            2: list(itertools.product(ARITY_ARGS, repeat=2)),
+            3: [(X, Y, C(2)), (X, X, X), (C(2), Y, X), (Y, C(2), C(3))],
+        }
+        wrap = (lambda u: u, lambda u: Sum(u, X), lambda u: Prod(Y, u),
+                lambda u: mcall("sin", u), lambda u: CSE(u), lambda u: Quot(X, u))
+        for name in (*SMOOTH_FUNCS, "fabs", "copysign"):
+            for k in range(MAX_ARITY + 1):
+                for args in args_by_arity[k]:
+                    call = mcall(name, *args)
+                    if not in_fragment(call):
+                        continue            # copysign(u, c) with a non-constant first argument
+                    for w in wrap:
+                        yield ("e", w(call))
 
     def gen_cse_twins(self):
         """Two different wrappers in ONE expression whose children differ only in a constant of a
